@@ -1,20 +1,686 @@
 package main
 
 import (
+	"context"
+	"encoding/binary"
+	"encoding/hex"
+	"errors"
+	"fmt"
+	"io"
 	"math/rand/v2"
+	"net"
+	"sort"
+	"strings"
+	"sync"
+	"time"
 
 	"github.com/WuKongIM/WuKongIM/internal/verifh/vh"
+	"github.com/WuKongIM/WuKongIM/pkg/transport"
+	"github.com/WuKongIM/WuKongIM/pkg/transport/internal/conn"
+	"github.com/WuKongIM/WuKongIM/pkg/transport/internal/core"
 	"github.com/WuKongIM/WuKongIM/pkg/transport/internal/rpc"
+	"github.com/WuKongIM/WuKongIM/pkg/transport/wire"
 )
-
-type opIn struct{}
-type stress struct{}
 
 func verifDefaultPendingShards() int { return rpc.VerifDefaultPendingShards }
 
-func genPend(r *rand.Rand) input               { return genDec(r) }
-func genConn(r *rand.Rand) input               { return genRead(r) }
-func genStress(r *rand.Rand, tier string) input { return genWrite(r) }
-func runPend(in input) vh.Result               { panic("todo") }
-func runConn(in input) vh.Result               { panic("todo") }
-func runStress(in input) vh.Result             { panic("todo") }
+// opIn is one step of a pend / conn history.
+type opIn struct {
+	Op      string `json:"op"`
+	ID      uint64 `json:"id,omitempty"`      // request id (pend: store/delete/complete; conn: respond)
+	C       int    `json:"c,omitempty"`       // pend: channel number
+	K       int    `json:"k,omitempty"`       // conn: call number
+	Status  uint8  `json:"status,omitempty"`  // conn respond: status byte
+	Err     int    `json:"err,omitempty"`     // error code (index into harnessErrs), 0 = nil
+	Payload string `json:"payload,omitempty"` // hex
+}
+
+var harnessErrs = []error{nil, errors.New("verif: err 1"), errors.New("verif: err 2"), errors.New("verif: err 3")}
+
+// error classes shared with Model/Pending.v
+const (
+	eRemote         = 20
+	eRemoteNotFound = 21
+	eCanceled       = 30
+	eStopped        = 31
+	eRead           = 32
+	eDeadline       = 33
+	eInvalidFrame   = 34
+	eHang           = 98
+	eOther          = 99
+)
+
+func errCode(err error) (msg []byte, code int) {
+	if err == nil {
+		return nil, 0
+	}
+	for i, e := range harnessErrs {
+		if e != nil && errors.Is(err, e) {
+			return nil, i
+		}
+	}
+	var re core.RemoteError
+	switch {
+	case errors.As(err, &re):
+		if re.Code == core.RemoteErrorCodeServiceNotFound {
+			return []byte(re.Message), eRemoteNotFound
+		}
+		return []byte(re.Message), eRemote
+	case errors.Is(err, core.ErrCanceled), errors.Is(err, context.Canceled):
+		return nil, eCanceled
+	case errors.Is(err, core.ErrStopped):
+		return nil, eStopped
+	case errors.Is(err, io.EOF), errors.Is(err, io.ErrClosedPipe), errors.Is(err, net.ErrClosed), errors.Is(err, io.ErrUnexpectedEOF):
+		return nil, eRead
+	case errors.Is(err, context.DeadlineExceeded), errors.Is(err, core.ErrTimeout):
+		return nil, eDeadline
+	case errors.Is(err, core.ErrInvalidFrame):
+		return nil, eInvalidFrame
+	}
+	return nil, eOther
+}
+
+func coqOutcome(payload []byte, err error) string {
+	if err == nil {
+		return vh.Pair(vh.Hex(payload), "0")
+	}
+	msg, code := errCode(err)
+	return vh.Pair(vh.Hex(msg), vh.N(uint64(code)))
+}
+
+// ---------------------------------------------------------------------------------------
+// pend: rpc.PendingTable driven sequentially
+// ---------------------------------------------------------------------------------------
+
+func genPend(r *rand.Rand) input {
+	in := input{Kind: "pend", Shards: vh.Pick(r, 0, 1, 2, 4, 16, 3, -1, 8)}
+	nch := 2 + r.IntN(3)
+	for i := 0; i < nch; i++ {
+		in.Chunks = append(in.Chunks, vh.Pick(r, 1, 1, 1, 2, 1, 0)) // channel capacities
+	}
+	id := func() uint64 {
+		switch r.IntN(8) {
+		case 0:
+			return vh.Pick(r, uint64(16), 17, 32, 1<<63, ^uint64(0))
+		default:
+			return uint64(r.IntN(5))
+		}
+	}
+	ch := func() int {
+		if r.IntN(25) == 0 {
+			return nch + r.IntN(2) // nil channel
+		}
+		return r.IntN(nch)
+	}
+	n := 3 + r.IntN(18)
+	closed := false
+	for i := 0; i < n; i++ {
+		var o opIn
+		switch x := r.IntN(100); {
+		case x < 30:
+			o = opIn{Op: "store", ID: id(), C: ch()}
+		case x < 38:
+			o = opIn{Op: "delete", ID: id()}
+		case x < 65:
+			o = opIn{Op: "complete", ID: id(), Err: vh.Pick(r, 0, 0, 0, 1, 2), Payload: hex.EncodeToString(vh.Bytes(r, r.IntN(4)))}
+		case x < 70 || (closed && x < 73):
+			o = opIn{Op: "failall", Err: vh.Pick(r, 1, 2, 3, 0)}
+			closed = true
+		case x < 80:
+			o = opIn{Op: "len"}
+		default:
+			o = opIn{Op: "recv", C: r.IntN(nch)}
+		}
+		in.Ops = append(in.Ops, o)
+	}
+	return in
+}
+
+func runPend(in input) vh.Result {
+	table := rpc.NewPendingTable(in.Shards)
+	chans := make([]chan rpc.Response, len(in.Chunks))
+	caps := make([]uint64, len(in.Chunks))
+	for i, c := range in.Chunks {
+		caps[i] = uint64(c)
+		chans[i] = make(chan rpc.Response, c) // capacity 0: unbuffered, Store must panic
+	}
+	chanOf := func(c int) chan rpc.Response {
+		if c < 0 || c >= len(chans) {
+			return nil
+		}
+		return chans[c]
+	}
+	var coqOps []string
+	var obsList []string
+	classes := map[string]bool{}
+	ids := map[uint64]bool{}
+	for _, o := range in.Ops {
+		var op, ob string
+		switch o.Op {
+		case "store":
+			op = vh.App("PStore", vh.N(o.ID), vh.N(uint64(o.C)))
+			ids[o.ID] = true
+			func() {
+				defer func() {
+					if rec := recover(); rec != nil {
+						ob = "OPanic"
+						classes["store-panic"] = true
+					}
+				}()
+				table.Store(o.ID, chanOf(o.C))
+				ob = "OUnit"
+			}()
+		case "delete":
+			op = vh.App("PDelete", vh.N(o.ID))
+			table.Delete(o.ID)
+			ob = "OUnit"
+		case "complete":
+			payload := mustHex(o.Payload)
+			op = vh.App("PComplete", vh.N(o.ID), vh.Hex(payload), vh.N(uint64(o.Err)))
+			ok := table.Complete(o.ID, rpc.Response{Payload: payload, Err: harnessErrs[o.Err]})
+			ob = vh.App("OBool", vh.B(ok))
+			if ok {
+				classes["complete-hit"] = true
+			}
+		case "failall":
+			op = vh.App("PFailAll", vh.N(uint64(o.Err)))
+			table.FailAll(harnessErrs[o.Err])
+			ob = "OUnit"
+			classes["failall"] = true
+		case "len":
+			op = "PLen"
+			ob = vh.App("ONum", vh.N(uint64(table.Len())))
+		case "recv":
+			op = vh.App("PRecv", vh.N(uint64(o.C)))
+			select {
+			case resp := <-chanOf(o.C):
+				_, code := errCode(resp.Err) // a Response carries both fields; the table passes them through
+				ob = vh.App("ORecv", vh.Some(vh.Pair(vh.Hex(resp.Payload), vh.N(uint64(code)))))
+				if resp.Err != nil {
+					classes["recv-err"] = true
+				} else {
+					classes["recv-payload"] = true
+				}
+			default:
+				ob = vh.App("ORecv", vh.None())
+			}
+		default:
+			panic("unknown pend op " + o.Op)
+		}
+		coqOps = append(coqOps, vh.Pair(op, ob))
+		obsList = append(obsList, ob)
+	}
+	var probe []string
+	sorted := make([]uint64, 0, len(ids))
+	for id := range ids {
+		sorted = append(sorted, id)
+	}
+	sort.Slice(sorted, func(i, j int) bool { return sorted[i] < sorted[j] })
+	for _, id := range sorted {
+		probe = append(probe, vh.Pair(vh.N(id), vh.N(table.VerifShardIndex(id))))
+	}
+	return vh.Result{
+		Coq: vh.App("C26Pend", vh.Z(int64(in.Shards)), vh.NList(caps), vh.List(coqOps),
+			vh.N(uint64(table.VerifShardCount())), vh.List(probe)),
+		Obs:     map[string]any{"obs": obsList, "shards": table.VerifShardCount()},
+		Class:   "pend:" + classSet(classes),
+		Trivial: len(in.Ops) == 0,
+	}
+}
+
+func classSet(m map[string]bool) string {
+	keys := make([]string, 0, len(m))
+	for k := range m {
+		keys = append(keys, k)
+	}
+	sort.Strings(keys)
+	if len(keys) == 0 {
+		return "-"
+	}
+	return strings.Join(keys, "+")
+}
+
+// ---------------------------------------------------------------------------------------
+// conn: conn.Conn over a synchronous pipe, scripted peer
+// ---------------------------------------------------------------------------------------
+
+func genConn(r *rand.Rand) input {
+	in := input{Kind: "conn"}
+	n := 4 + r.IntN(12)
+	next := uint64(0)
+	active := map[int]uint64{} // running calls: k -> request id
+	answered := map[int]bool{} // a response was delivered to the running call
+	finished := map[int]bool{} // returned, not yet collected
+	down := false
+	k := 0
+	keys := func(m map[int]uint64) []int {
+		out := make([]int, 0, len(m))
+		for x := range m {
+			out = append(out, x)
+		}
+		sort.Ints(out)
+		return out
+	}
+	for i := 0; i < n; i++ {
+		x := r.IntN(100)
+		switch {
+		case x < 32 || len(active) == 0 && x < 60:
+			next++
+			in.Ops = append(in.Ops, opIn{Op: "start", K: k, Payload: hex.EncodeToString(nonceBytes(r, k))})
+			if down {
+				finished[k] = true
+			} else {
+				active[k] = next
+			}
+			k++
+		case x < 36:
+			next++
+			in.Ops = append(in.Ops, opIn{Op: "start_canceled", K: k, Payload: hex.EncodeToString(nonceBytes(r, k))})
+			k++
+		case x < 70:
+			o := opIn{Op: "respond", Status: vh.Pick(r, uint8(0), 0, 0, 0, 1, 2, 3), Payload: hex.EncodeToString(vh.Bytes(r, 1+r.IntN(4)))}
+			ks := keys(active)
+			switch y := r.IntN(10); {
+			case y < 7 && len(ks) > 0:
+				c := ks[r.IntN(len(ks))]
+				o.ID = active[c]
+				if !down {
+					answered[c] = true
+				}
+			case y < 8:
+				o.ID = uint64(r.IntN(int(next) + 1)) // an id already used (duplicate / cancelled) or 0
+				for c, id := range active {
+					if id == o.ID && !down {
+						answered[c] = true
+					}
+				}
+			default:
+				o.ID = next + 1 + uint64(r.IntN(3)) // not issued yet
+			}
+			if r.IntN(10) == 0 {
+				o.Op = "respond_empty"
+			}
+			in.Ops = append(in.Ops, o)
+		case x < 80:
+			c := r.IntN(k + 1)
+			in.Ops = append(in.Ops, opIn{Op: "cancel", K: c})
+			delete(active, c)
+			delete(answered, c)
+			delete(finished, c)
+		case x < 92:
+			var cands []int
+			for c := range answered {
+				cands = append(cands, c)
+			}
+			for c := range finished {
+				cands = append(cands, c)
+			}
+			if len(cands) == 0 {
+				continue
+			}
+			sort.Ints(cands)
+			c := cands[r.IntN(len(cands))]
+			in.Ops = append(in.Ops, opIn{Op: "await", K: c})
+			delete(active, c)
+			delete(answered, c)
+			delete(finished, c)
+		default:
+			in.Ops = append(in.Ops, opIn{Op: vh.Pick(r, "reset", "garbage", "close"), Err: r.IntN(4)})
+			if !down {
+				for c := range active {
+					finished[c] = true
+				}
+				active, answered, down = map[int]uint64{}, map[int]bool{}, true
+			}
+		}
+	}
+	return in
+}
+
+func nonceBytes(r *rand.Rand, k int) []byte {
+	b := binary.BigEndian.AppendUint16(nil, uint16(k))
+	return append(b, vh.Bytes(r, 2)...)
+}
+
+type callResult struct {
+	payload []byte
+	err     error
+}
+
+const connStepTimeout = 5 * time.Second
+
+func runConn(in input) vh.Result {
+	clientEnd, serverEnd := net.Pipe()
+	limits := core.Limits{MaxFrameBodyBytes: 1 << 16, MaxQueuedBytesPerConn: 1 << 20, MaxQueuedItemsPerConn: 256,
+		MaxBatchBytes: 1 << 16, MaxBatchFrames: 8}
+	c := conn.New(clientEnd, conn.Config{Limits: limits, NodeID: 2}, nil)
+	c.Start()
+	down := false
+	results := map[int]chan callResult{}
+	cancels := map[int]context.CancelFunc{}
+	collected := map[int]bool{}
+	classes := map[string]bool{}
+
+	collect := func(k int) ([]byte, int) {
+		select {
+		case res := <-results[k]:
+			collected[k] = true
+			msg, code := errCode(res.err)
+			switch {
+			case res.err == nil:
+				classes["ok"] = true
+				msg = res.payload
+			case code == eRemote || code == eRemoteNotFound:
+				classes["remote-err"] = true
+			case code == eCanceled:
+				classes["canceled"] = true
+			default:
+				classes["conn-err"] = true
+			}
+			return msg, code
+		case <-time.After(connStepTimeout):
+			collected[k] = true
+			classes["HANG"] = true
+			return nil, eHang
+		}
+	}
+	coOutcome := func(k int) string {
+		msg, code := collect(k)
+		return vh.App("CoOutcome", vh.Hex(msg), vh.N(uint64(code)))
+	}
+	start := func(k int, payload []byte, ctx context.Context, cancel context.CancelFunc) {
+		ch := make(chan callResult, 1)
+		results[k], cancels[k] = ch, cancel
+		go func() {
+			p, err := c.Call(ctx, conn.Outbound{Priority: core.PriorityRPC, ServiceID: 7, Payload: core.CopyOwnedBuffer(payload)})
+			ch <- callResult{p, err}
+		}()
+	}
+	waitDown := func() {
+		select {
+		case <-c.Done():
+		case <-time.After(connStepTimeout):
+			classes["HANG"] = true
+		}
+		c.Close(nil) // returns after the shutdown that is in progress has completed
+		_ = serverEnd.Close()
+		down = true
+	}
+	writeResponse := func(reqid uint64, body []byte) bool {
+		_ = serverEnd.SetWriteDeadline(time.Now().Add(connStepTimeout))
+		hdr := wire.Header{Kind: core.FrameKindRPCResponse, Priority: core.PriorityRPC, ServiceID: 7, RequestID: reqid}
+		if err := wire.WriteFrame(serverEnd, wire.Frame{Header: hdr, Body: core.CopyOwnedBuffer(body)}, limits.MaxFrameBodyBytes); err != nil {
+			return false
+		}
+		// barrier: the read loop takes the next header only after it has handled the
+		// previous frame; request id 2^64-1 is never issued
+		hdr.RequestID = ^uint64(0)
+		return wire.WriteFrame(serverEnd, wire.Frame{Header: hdr, Body: core.CopyOwnedBuffer([]byte{wire.ResponseOK})}, limits.MaxFrameBodyBytes) == nil
+	}
+
+	var script, obsList []string
+	for _, o := range in.Ops {
+		var op, ob string
+		switch o.Op {
+		case "start":
+			payload := mustHex(o.Payload)
+			op = vh.App("CStart", vh.N(uint64(o.K)), vh.Hex(payload))
+			ctx, cancel := context.WithCancel(context.Background())
+			start(o.K, payload, ctx, cancel)
+			if down {
+				ob = coOutcome(o.K)
+			} else {
+				_ = serverEnd.SetReadDeadline(time.Now().Add(connStepTimeout))
+				f, err := wire.ReadFrame(serverEnd, limits.MaxFrameBodyBytes)
+				if err != nil || f.Header.Kind != core.FrameKindRPCRequest {
+					ob = vh.App("CoRead", vh.N(^uint64(0)), vh.Hex([]byte(fmt.Sprint(err))))
+				} else {
+					ob = vh.App("CoRead", vh.N(f.Header.RequestID), vh.Hex(f.Body.Bytes()))
+				}
+			}
+		case "start_canceled":
+			payload := mustHex(o.Payload)
+			op = vh.App("CStartCanceled", vh.N(uint64(o.K)), vh.Hex(payload))
+			ctx, cancel := context.WithCancel(context.Background())
+			cancel()
+			start(o.K, payload, ctx, cancel)
+			ob = coOutcome(o.K)
+		case "respond", "respond_empty":
+			payload := mustHex(o.Payload)
+			body := append([]byte{o.Status}, payload...)
+			if o.Op == "respond_empty" {
+				op, body = vh.App("CRespondEmpty", vh.N(o.ID)), nil
+			} else {
+				op = vh.App("CRespond", vh.N(o.ID), vh.N(uint64(o.Status)), vh.Hex(payload))
+			}
+			ob = vh.App("CoWrite", vh.B(writeResponse(o.ID, body)))
+		case "cancel", "await":
+			if o.Op == "cancel" {
+				op = vh.App("CCancel", vh.N(uint64(o.K)))
+			} else {
+				op = vh.App("CAwait", vh.N(uint64(o.K)))
+			}
+			if results[o.K] == nil || collected[o.K] {
+				ob = "CoNone"
+			} else {
+				if o.Op == "cancel" {
+					cancels[o.K]()
+				}
+				ob = coOutcome(o.K)
+			}
+		case "reset":
+			op, ob = "CReset", "CoNone"
+			if !down {
+				_ = serverEnd.Close()
+				waitDown()
+				classes["reset"] = true
+			}
+		case "garbage":
+			op, ob = "CGarbage", "CoNone"
+			if !down {
+				bad := wire.EncodeHeader(wire.Header{Kind: core.FrameKindRPCResponse, Priority: core.PriorityRPC})
+				bad[0] ^= 0xff
+				_ = serverEnd.SetWriteDeadline(time.Now().Add(connStepTimeout))
+				_, _ = serverEnd.Write(bad[:])
+				waitDown()
+				classes["garbage"] = true
+			}
+		case "close":
+			op, ob = vh.App("CClose", vh.N(uint64(o.Err))), "CoNone"
+			if !down {
+				c.Close(harnessErrs[o.Err])
+				_ = serverEnd.Close()
+				down = true
+				classes["close"] = true
+			}
+		default:
+			panic("unknown conn op " + o.Op)
+		}
+		script = append(script, vh.Pair(op, ob))
+		obsList = append(obsList, ob)
+	}
+	// end of script: stop the conn and collect whatever is left
+	c.Close(nil)
+	_ = serverEnd.Close()
+	var final []string
+	ks := make([]int, 0, len(results))
+	for k := range results {
+		if !collected[k] {
+			ks = append(ks, k)
+		}
+	}
+	sort.Ints(ks)
+	for _, k := range ks {
+		msg, code := collect(k)
+		cancels[k]()
+		final = append(final, vh.Pair(vh.N(uint64(k)), vh.Pair(vh.Hex(msg), vh.N(uint64(code)))))
+	}
+	for _, cancel := range cancels {
+		cancel()
+	}
+	return vh.Result{
+		Coq:     vh.App("C26Conn", vh.List(script), vh.List(final)),
+		Obs:     map[string]any{"obs": obsList, "final": final},
+		Class:   "conn:" + classSet(classes),
+		Trivial: len(in.Ops) == 0,
+	}
+}
+
+// ---------------------------------------------------------------------------------------
+// stress: transport.Client / transport.Server over loopback, concurrent calls
+// ---------------------------------------------------------------------------------------
+
+type stressCall struct {
+	Mode      uint8 `json:"mode"`       // 0 echo, 1 handler error, 2 slow echo
+	SleepMS   uint8 `json:"sleep_ms"`   // handler delay for mode 2
+	TimeoutMS int   `json:"timeout_ms"` // caller deadline; 0 = none
+	CancelMS  int   `json:"cancel_ms"`  // caller cancels after this long; 0 = never
+}
+
+type stress struct {
+	Salt   uint32       `json:"salt"`
+	Conc   int          `json:"conc"`
+	Pool   int          `json:"pool"`
+	Calls  []stressCall `json:"calls"`
+	Resets []int        `json:"resets_ms"` // ClosePeer at these offsets
+}
+
+type staticDiscovery map[transport.NodeID]string
+
+func (d staticDiscovery) Resolve(id transport.NodeID) (string, error) {
+	if a, ok := d[id]; ok {
+		return a, nil
+	}
+	return "", transport.ErrNodeNotFound
+}
+
+func genStress(r *rand.Rand, tier string) input {
+	n := 16 + r.IntN(24)
+	if tier == "thorough" {
+		n = 40 + r.IntN(120)
+	}
+	st := &stress{Salt: r.Uint32(), Conc: 2 + r.IntN(10), Pool: 1 + r.IntN(3)}
+	for i := 0; i < n; i++ {
+		c := stressCall{Mode: vh.Pick(r, uint8(0), 0, 0, 1, 2, 2), SleepMS: uint8(r.IntN(6))}
+		switch r.IntN(5) {
+		case 0:
+			c.TimeoutMS = 1 + r.IntN(4)
+		case 1:
+			c.CancelMS = 1 + r.IntN(3)
+		}
+		st.Calls = append(st.Calls, c)
+	}
+	for k := r.IntN(3); k > 0; k-- {
+		st.Resets = append(st.Resets, 1+r.IntN(15))
+	}
+	return input{Kind: "stress", Stress: st}
+}
+
+func runStress(in input) vh.Result {
+	st := in.Stress
+	limits := transport.DefaultLimits()
+	server, err := transport.NewServer(transport.ServerConfig{NodeID: 2, Limits: limits})
+	if err != nil {
+		panic(err)
+	}
+	defer server.Stop()
+	handler := func(ctx context.Context, payload []byte) ([]byte, error) {
+		if len(payload) != 10 {
+			return nil, fmt.Errorf("bad request length %d", len(payload))
+		}
+		nonce, mode, sleep := payload[:8], payload[8], payload[9]
+		switch mode {
+		case 1:
+			return nil, errors.New("E" + string(nonce))
+		case 2:
+			time.Sleep(time.Duration(sleep) * time.Millisecond)
+		}
+		return append([]byte("R"), nonce...), nil
+	}
+	if err := server.Handle(7, handler, transport.ServiceOptions{Concurrency: 4, QueueSize: 1024, MaxQueueBytes: 8 << 20}); err != nil {
+		panic(err)
+	}
+	if err := server.ListenAndServe("127.0.0.1:0"); err != nil {
+		panic(err)
+	}
+	client, err := transport.NewClient(transport.ClientConfig{NodeID: 1, Discovery: staticDiscovery{2: server.Addr()},
+		PoolSize: st.Pool, Limits: limits})
+	if err != nil {
+		panic(err)
+	}
+	defer client.Stop()
+
+	type out struct {
+		payload []byte
+		err     error
+	}
+	outs := make([]out, len(st.Calls))
+	nonces := make([][]byte, len(st.Calls))
+	sem := make(chan struct{}, max(st.Conc, 1))
+	var wg sync.WaitGroup
+	done := make(chan struct{})
+	go func() { // connection resets
+		begin := time.Now()
+		resets := append([]int(nil), st.Resets...)
+		sort.Ints(resets)
+		for _, ms := range resets {
+			select {
+			case <-done:
+				return
+			case <-time.After(time.Until(begin.Add(time.Duration(ms) * time.Millisecond))):
+				client.ClosePeer(2)
+			}
+		}
+	}()
+	for i, call := range st.Calls {
+		nonce := binary.BigEndian.AppendUint32(binary.BigEndian.AppendUint32(nil, st.Salt), uint32(i))
+		nonces[i] = nonce
+		wg.Add(1)
+		sem <- struct{}{}
+		go func(i int, call stressCall) {
+			defer wg.Done()
+			defer func() { <-sem }()
+			ctx, cancel := context.WithTimeout(context.Background(), 3*time.Second)
+			if call.TimeoutMS > 0 {
+				ctx, cancel = context.WithTimeout(context.Background(), time.Duration(call.TimeoutMS)*time.Millisecond)
+			}
+			defer cancel()
+			if call.CancelMS > 0 {
+				t := time.AfterFunc(time.Duration(call.CancelMS)*time.Millisecond, cancel)
+				defer t.Stop()
+			}
+			req := append(append([]byte(nil), nonce...), call.Mode, call.SleepMS)
+			p, err := client.Call(ctx, 2, uint64(i), transport.PriorityRPC, 7, req)
+			outs[i] = out{p, err}
+		}(i, call)
+	}
+	wg.Wait()
+	close(done)
+
+	classes := map[string]int{}
+	calls := make([]string, len(outs))
+	for i, o := range outs {
+		calls[i] = vh.Pair(vh.Pair(vh.Hex(nonces[i]), vh.N(uint64(st.Calls[i].Mode))), coqOutcome(o.payload, o.err))
+		_, code := errCode(o.err)
+		classes[fmt.Sprint(code)]++
+	}
+	ok, local := classes["0"]+classes[fmt.Sprint(eRemote)], 0
+	for k, v := range classes {
+		if k != "0" && k != fmt.Sprint(eRemote) {
+			local += v
+		}
+	}
+	class := "stress:answered"
+	if local > 0 {
+		class = "stress:answered+local-errors"
+	}
+	if ok == 0 {
+		class = "stress:none-answered"
+	}
+	return vh.Result{
+		Coq:     vh.App("C26Stress", vh.List(calls)),
+		Obs:     map[string]any{"outcome_classes": classes},
+		Class:   class,
+		Trivial: len(outs) == 0,
+	}
+}
